@@ -51,7 +51,7 @@ func TestRoute(t *testing.T) {
 	out := rec.Default()
 	nFair, nHostile := 260, 200
 	if rec.Thorough() {
-		nFair, nHostile = 6000, 6000
+		nFair, nHostile = 2500, 2500
 	}
 	prop := rec.Prop()
 	switch prop { // each check puts its budget where its oracle bites
@@ -70,7 +70,12 @@ func TestRoute(t *testing.T) {
 		if !rec.Want(idx, name) {
 			return
 		}
-		sc := GenScenario(rec.Mix(seed, name), k, class, rec.Thorough())
+		var sc *Scenario
+		if class == "backlog" {
+			sc = GenBacklog(rec.Mix(seed, name), k)
+		} else {
+			sc = GenScenario(rec.Mix(seed, name), k, class, rec.Thorough())
+		}
 		sc.Name = name
 		out.Begin(name, sc)
 		o := runInBubble(t, sc)
@@ -101,6 +106,13 @@ func TestRoute(t *testing.T) {
 	}
 	for k := 0; k < nHostile; k++ {
 		run("hostile", k)
+	}
+	nBacklog := 6
+	if rec.Thorough() {
+		nBacklog = 60
+	}
+	for k := 0; k < nBacklog; k++ {
+		run("backlog", k)
 	}
 	i, n := rec.Shard()
 	if i == 0 {
